@@ -224,6 +224,13 @@ def settable_properties():
     return out
 
 
+def _items(v):
+    """the messages of an inbox, whatever container the hub uses (list today; a queue.Queue has `.queue`)"""
+    if hasattr(v, "queue") and not isinstance(v, (list, tuple)):
+        return list(v.queue)
+    return list(v)
+
+
 def op_keys(t, op):
     """the socket keys (as int triples) an operation of thread t works on"""
     if op[0] in ("bc", "bs", "br", "brn"):
@@ -352,11 +359,22 @@ class Worker(threading.Thread):
         co = frame.f_code
         if co.co_filename == HUB_FILE and (self.sched.coarse or co.co_name in METHODS):
             return self.ltrace
+        if self.sched.coarse and co.co_name == "__init__":
+            # a library constructor reached FROM hub code (first use of a channel builds its container there)
+            f = frame.f_back
+            depth = 0
+            while f is not None and depth < 6:
+                if f.f_code.co_filename == HUB_FILE:
+                    return self.ltrace
+                f, depth = f.f_back, depth + 1
         return None
 
     def ltrace(self, frame, event, arg):
         if event == "line":
             ln = frame.f_lineno
+            if frame.f_code.co_filename != HUB_FILE:
+                self.park(-(1000 + ln))     # inside a constructor called from the hub (never a lock line of the hub)
+                return self.ltrace
             if self.sched.coarse or ln in self.sched.line_kind:
                 if ln in self.sched.with_lines:
                     if ln in self.held:        # the line event of leaving the `with` block
@@ -417,7 +435,7 @@ class Worker(threading.Thread):
             return
         if kind == "brn":           # channel.recv(block=False): one round of non-blocking receives (after F48)
             keys = [(node_name(self.tid), node_name(r), sid) for r in op[3]]
-            queued = sum(len(hub_in_use()._messages.get(k, ())) for k in keys)
+            queued = sum(len(_items(hub_in_use()._messages.get(k, ()))) for k in keys)
             self.cur_key = key_json(keys[0])
             self.cur_nonblock = True
             try:
@@ -460,7 +478,7 @@ class Worker(threading.Thread):
                 pass
         elif kind == "r":
             block = bool(op[3])
-            queue = hub_in_use()._messages.get(key, ())
+            queue = _items(hub_in_use()._messages.get(key, ()))
             q0 = len(queue)
             head = decode(queue[0]) if q0 else None      # only the owner pops: the head is stable
             try:
@@ -479,7 +497,7 @@ class Worker(threading.Thread):
                     s.unexpected.append({"thread": self.tid, "op": "recv(block=%s) on %s" % (block, kj),
                                          "error": "RuntimeError(%s)" % e})
             except ConnectionError as e:        # not raised by the code as it is: a recv that gives up
-                left = [decode(x) for x in hub_in_use()._messages.get(key, ())]
+                left = [decode(x) for x in _items(hub_in_use()._messages.get(key, ()))]
                 self.res.append(["recvRaised", kj, "ConnectionError"])
                 out = "raised"
                 if left:
@@ -538,7 +556,7 @@ def hub_leftovers(h=None):
         v = getattr(h, name, None)
         if v:
             left[name] = sorted(str(k) for k in v)
-    msgs = {str(k): [decode(m) for m in v] for k, v in getattr(h, "_messages", {}).items() if v}
+    msgs = {str(k): [decode(m) for m in _items(v)] for k, v in getattr(h, "_messages", {}).items() if _items(v)}
     if msgs:
         left["_messages"] = msgs
     if h._lock.locked():
@@ -640,7 +658,7 @@ class Scheduler:
         return {
             "ok": ok,
             "open": ks(h._open_sockets), "remote": ks(h._remote_sockets),
-            "msgs": sorted([key_json(k), [decode(m) for m in v]] for k, v in h._messages.items() if v),
+            "msgs": sorted([key_json(k), [decode(m) for m in _items(v)]] for k, v in h._messages.items() if _items(v)),
             "rcb": ks(h._recv_callbacks.keys()), "lcb": ks(h._conn_lost_callbacks.keys()),
             "lock": self.holder,
             "pcs": pcs,
@@ -659,7 +677,8 @@ class Scheduler:
             w.join(timeout=10)
             if w.is_alive():
                 raise Stuck("thread %d did not terminate" % w.tid)
-        final_queues = {tuple(key_json(k)): [decode(m) for m in v] for k, v in self.hub._messages.items() if v}
+        final_queues = {tuple(key_json(k)): [decode(m) for m in _items(v)] for k, v in self.hub._messages.items()
+                        if _items(v)}
         SH.reset_socket_hub()
         # drop every reference to the socket objects NOW (their __del__ calls hub.disconnect; it must hit the
         # freshly reset hub, not the hub of a later case)
@@ -978,7 +997,7 @@ def random_policy(rng, n_main, n_settle):
 def _sig(sc):
     h = sc.hub
     return (frozenset(h._open_sockets), frozenset(h._remote_sockets),
-            tuple(sorted((k, len(v)) for k, v in h._messages.items() if v)), frozenset(h._recv_callbacks))
+            tuple(sorted((k, len(_items(v))) for k, v in h._messages.items() if _items(v))), frozenset(h._recv_callbacks))
 
 
 def preemptive_policy(preempt, trace):
@@ -1100,6 +1119,8 @@ def coarse_scenarios():
          [("c", 0, 0, 0), ("s", 0, 0, 1), B, ("s", 0, 0, 2), ("s", 0, 0, 3)]],
         [[("c", 1, 0, 0), B, ("d", 1, 0), ("c", 1, 0, 0), ("r", 1, 0, 0), ("r", 1, 0, 0), ("r", 1, 0, 0)],
          [("c", 0, 0, 0), ("s", 0, 0, 1), B, ("s", 0, 0, 2), ("s", 0, 0, 3)]],
+        # FIRST use of a channel: the first send races the first receive (receiver first in the baseline)
+        [[("c", 1, 0, 0), B, ("r", 1, 0, 0), ("r", 1, 0, 0), ("r", 1, 0, 0)], [("c", 0, 0, 0), B, ("s", 0, 0, 1), ("s", 0, 0, 2)]],
         # two socket ids between the same pair, callback receivers, senders in both directions
         [[("c", 1, 0, 1), ("c", 1, 1, 1), B, ("s", 1, 0, 1), ("s", 1, 1, 2)],
          [("c", 0, 0, 1), ("c", 0, 1, 1), B, ("s", 0, 1, 3), ("s", 0, 0, 4)]],
@@ -1485,6 +1506,84 @@ def value_snapshot_histories(rng=None, n_random=0):
         hub_in_use().__init__()
     reset_and_check("after the value-snapshot histories")
     return len(histories), fails
+
+
+def broadcast_matrix():
+    """Model-free, with a watchdog: broadcast channels with 1, 2, 3 remotes x block True / False x empty /
+    non-empty. Non-empty: recv returns (sender, message); empty + block=False: RuntimeError at once; empty +
+    block=True: keeps waiting and returns the message sent later. A call that must return or raise but is still
+    running after the watchdog time is reported with its input. Returns (number of cases, failures)."""
+    fails, n_cases = [], 0
+    SH._SocketHub._CONNECT_SLEEP_TIME = 0
+    SH._SocketHub._RECV_SLEEP_TIME = 0
+    for n_rem in (1, 2, 3):
+        for block in (False, True):
+            for nonempty in (False, True):
+                n_cases += 1
+                reset_and_check("before a broadcast case")
+                names = [node_name(i) for i in range(n_rem + 1)]
+                chans, errs = {}, []
+
+                def build(i, names=names, chans=chans, errs=errs):
+                    try:
+                        rem = names[1:] if i == 0 else [names[0]]
+                        chans[i] = ThreadBroadcastChannel(names[i], rem, timeout=10)
+                    except Exception as e:  # noqa
+                        errs.append(repr(e))
+                ts = [threading.Thread(target=build, args=(i,), daemon=True) for i in range(n_rem + 1)]
+                for t in ts:
+                    t.start()
+                for t in ts:
+                    t.join(15)
+                desc = {"remotes of the receiving channel": n_rem, "block": block,
+                        "a message is queued before the call": nonempty}
+                if errs or len(chans) != n_rem + 1:
+                    fails.append({"what": "broadcast channels could not be built: %s" % errs, "input": desc})
+                    continue
+                sender = n_rem        # the LAST remote sends (the poll has to pass the empty ones first)
+                if nonempty:
+                    chans[sender].send("m5")
+                out = {}
+
+                def call(out=out, chans=chans, block=block):
+                    try:
+                        out["ret"] = chans[0].recv(block=block)
+                    except Exception as e:  # noqa
+                        out["exc"] = type(e).__name__
+                t = threading.Thread(target=call, daemon=True)
+                t.start()
+                t.join(0.3 if (block and not nonempty) else 3.0)
+                if nonempty:
+                    if t.is_alive():
+                        fails.append({"what": "BroadcastChannel.recv(block=%s) is still running after 3 s although a "
+                                              "message was queued" % block, "input": desc})
+                    elif out.get("ret") != (names[sender], "m5"):
+                        fails.append({"what": "BroadcastChannel.recv(block=%s) with a queued message gave %s instead of "
+                                              "%s" % (block, out, (names[sender], "m5")), "input": desc})
+                elif not block:
+                    if t.is_alive():
+                        fails.append({"what": "BroadcastChannel.recv(block=False) on an EMPTY channel with %d remote(s) "
+                                              "blocks (still running after 3 s) instead of raising RuntimeError" % n_rem,
+                                      "input": desc})
+                        chans[sender].send("m9")     # let the stuck thread go
+                        t.join(3)
+                    elif out.get("exc") != "RuntimeError":
+                        fails.append({"what": "BroadcastChannel.recv(block=False) on an empty channel gave %s instead of "
+                                              "RuntimeError" % out, "input": desc})
+                else:
+                    if not t.is_alive():
+                        fails.append({"what": "BroadcastChannel.recv(block=True) on an empty channel did not wait: %s"
+                                              % out, "input": desc})
+                    else:
+                        chans[sender].send("m7")
+                        t.join(3)
+                        if t.is_alive() or out.get("ret") != (names[sender], "m7"):
+                            fails.append({"what": "a blocking BroadcastChannel.recv did not return the message sent "
+                                                  "while it was waiting: %s" % out, "input": desc})
+                chans.clear()
+                hub_in_use().__init__()
+    reset_and_check("after the broadcast cases")
+    return n_cases, fails
 
 
 def two_run_histories():
